@@ -161,7 +161,8 @@ inline void read_script(const char *path, int shard, int nshards, const std::fun
     }
 }
 
-inline int drive(int argc, char **argv, const ExecFn &fn) {
+inline int drive(int argc, char **argv, const ExecFn &fn, const ExecFn *warm_fn = nullptr) {
+    bool warmed = false;
     if (argc < 3) {
         fprintf(stderr, "usage: %s <script> <out> [shard k n] [nofork]\n", argv[0]);
         return 2;
@@ -188,6 +189,10 @@ inline int drive(int argc, char **argv, const ExecFn &fn) {
             fn(ex);
             out().flush();
             return;
+        }
+        if (warm_fn && !warmed) {   // lets a harness fill process-wide caches before the first fork
+            warmed = true;
+            (*warm_fn)(ex);
         }
         fflush(nullptr);
         int errpipe[2];
